@@ -57,6 +57,14 @@ NEXT_TO = {
                                           {"op": "store", "pid": "q", "c": NX}),
     "smeta/smeta-other-format": ([{"op": "smeta", "pid": "p", "fmt": "f", "d": 0}], {"op": "smeta", "pid": "p", "fmt": "f", "d": 1},
                                  {"op": "smeta", "pid": "p", "fmt": "g", "d": 1}),
+    # the faulted call DELETES what the clean call stores a new version of: afterwards the document is the new version or absent -
+    # never the old version again (a failed delete that "puts back" what it had set aside)
+    "delete-metadata-all/smeta-same-pid": ([{"op": "smeta", "pid": "p", "fmt": "f", "d": 0}, {"op": "smeta", "pid": "p", "fmt": "g", "d": 0},
+                                            {"op": "smeta", "pid": "p", "fmt": "h", "d": 0}],
+                                           {"op": "dmeta", "pid": "p", "fmt": None}, {"op": "smeta", "pid": "p", "fmt": "f", "d": 1}),
+    "delete-object/smeta-same-pid": ([{"op": "store", "pid": "p", "c": NX}, {"op": "smeta", "pid": "p", "fmt": "f", "d": 0},
+                                      {"op": "smeta", "pid": "p", "fmt": "g", "d": 0}],
+                                     {"op": "delete", "pid": "p"}, {"op": "smeta", "pid": "p", "fmt": "g", "d": 1}),
     "smeta/delete-metadata-all": ([{"op": "smeta", "pid": "p", "fmt": "f", "d": 0}, {"op": "smeta", "pid": "q", "fmt": "f", "d": 0}],
                                   {"op": "smeta", "pid": "p", "fmt": "g", "d": 1}, {"op": "dmeta", "pid": "q", "fmt": None}),
 }
@@ -123,7 +131,7 @@ def _next_to_case(case, ctx):
         for p in start_pids + ["p", "q"]:
             o = common.retrieve_bytes(store, p)
             out[("obj", p)] = ("ok", o[1]) if is_ok(o) else ("err", o[1])
-            for f in ("f", "g"):
+            for f in ("f", "g", "h"):
                 o = common.retrieve_meta_bytes(store, p, f)
                 out[("meta", p, f)] = ("ok", o[1]) if is_ok(o) else ("err", o[1])
         return out
@@ -173,7 +181,8 @@ def _next_to_case(case, ctx):
                                       f"{scen._s(got)}", dict(sig, failure="clean-call-lost-its-effect"))
                 if o1[0] == "ok" and clean["op"] == "smeta":
                     got = now[("meta", clean["pid"], clean["fmt"])]
-                    if got != ("ok", world.docs[clean["d"]]):
+                    deleter_next_to_it = faulted["op"] in ("dmeta", "delete") and faulted["pid"] == clean["pid"]
+                    if got != ("ok", world.docs[clean["d"]]) and not (deleter_next_to_it and got[0] == "err"):
                         ctx.violation("concurrent-call-harmed", f"{where}: the clean store_metadata returned normally but the document "
                                       f"now yields {scen._s(got)}", dict(sig, failure="clean-call-lost-its-effect"))
                 # (c) the faulted call: normal return => whole effect; raise => earlier state of ITS pid intact or retry works
